@@ -421,7 +421,7 @@ func (g *tgen) batchOp(rt *rapid.T, max int) model.Op {
 	return model.Op{Kind: "BatchWrite", Batch: []model.TableBatch{tb}}
 }
 
-const ruleC15 = "rapid state machine: SetFailure(none | internal_server | deprecated, through EmulateFailure and through ActiveForceFailure / DeactiveForceFailure) interleaved with every data operation kind (Put, Update, Delete, Get, Query, Scan, BatchWrite with 1-16 requests over one to three tables, BatchGet, TransactWrite) on tables with 0-2 indexes, the same abstract history on both SDK clients against the reference model: while a condition is active every data call returns exactly the configured error class and the complete internal snapshot is unchanged; BatchWrite under internal_server reports every request as unprocessed (none applied, none dropped) identically in both clients; after deactivation the full observable state equals the model that skipped the failed calls and later operations agree with it. Non-trivial = history with >= 2 toggles and a write attempted under failure followed by a read after recovery; distinct = hash of the operation list."
+const ruleC15 = "rapid state machine: SetFailure(none | internal_server | deprecated, through EmulateFailure and through ActiveForceFailure / DeactiveForceFailure) interleaved with every data operation kind (Put, Update, Delete, Get, Query, Scan, BatchWrite with 1-16 requests over one to three tables, BatchGet, TransactWrite) and with requests that are invalid on their own account (malformed keys, unknown table, bad placeholders, malformed expressions, ill-typed updates, index-key type mismatches) on tables with 0-2 indexes, the same abstract history on both SDK clients against the reference model: while a condition is active every data call returns exactly the configured error class and the complete internal snapshot is unchanged; BatchWrite under internal_server reports every request as unprocessed (none applied, none dropped) identically in both clients; after deactivation the full observable state equals the model that skipped the failed calls and later operations agree with it. Non-trivial = history with >= 2 toggles and a write attempted under failure followed by a read after recovery; distinct = hash of the operation list."
 
 // TestC15 decides property C15.
 func TestC15(t *testing.T) {
@@ -523,7 +523,17 @@ func TestC15(t *testing.T) {
 				data(model.Op{Kind: "BatchGet", Batch: []model.TableBatch{tb}}, false)
 			},
 			"transact": func(rt *rapid.T) { data(model.Op{Kind: "TransactWrite"}, true) },
-			"":         func(rt *rapid.T) { fail(w.maybeCheck()) },
+			"invalidRequest": func(rt *rapid.T) {
+				// requests that are rejected on their own account: while a failure
+				// is active they too return the configured error
+				op, class := g.failingOp(rt, w.m)
+				if w.m.Failure == "" {
+					return // without a failure these requests are C08's / C16's subject
+				}
+				st.Class("invalid-request-under-failure-" + class)
+				data(op, op.Kind != "Get" && op.Kind != "Scan" && op.Kind != "Query")
+			},
+			"": func(rt *rapid.T) { fail(w.maybeCheck()) },
 		})
 		fail(w.check())
 	})
